@@ -28,7 +28,11 @@ Values == <<
   \* %z%
   SS(<<37, 122, 37>>),
   \* %y%
-  SS(<<37, 121, 37>>)
+  SS(<<37, 121, 37>>),
+  \* %x%\\%y%   (for regular expressions: an escaped backslash, then a placeholder)
+  SS(<<37, 120, 37, 92, 92, 37, 121, 37>>),
+  \* \\\%x%y%   (an escaped backslash, an escaped percent sign, x, the placeholder y)
+  SS(<<92, 92, 92, 37, 120, 37, 121, 37>>)
 >>
 NX == <<120>> NY == <<121>> NZ == <<122>>
 It(t, m, ns) == [type |-> t, mode |-> m, names |-> ns]
@@ -50,21 +54,24 @@ Tables == {<<(<<NX, <<S1(112), S1(113)>>>>), (<<NY, <<S1(114)>>>>)>>,           
            <<(<<NY, <<S1(114), S1(115)>>>>)>>}                                           \* x missing
 F == <<102>>
 Chains == {<<N_expand>>, <<N_contains, N_expand>>, <<N_expand, N_startswith>>, <<N_endswith, N_expand>>,
-           <<N_cased, N_expand>>, <<N_expand, N_cased>>}
+           <<N_cased, N_expand>>, <<N_expand, N_cased>>,
+           \* encodings of a value whose text is not known yet
+           <<N_expand, N_base64>>, <<N_expand, N_base64offset, N_contains>>}
 Item(f, ch, vs) == [field |-> f, chain |-> ch, vals |-> vs, single |-> Len(vs) = 1]
 Body(it) == [kind |-> "map", items |-> <<it>>, maps |-> <<>>, vals |-> <<>>]
 N_sel == <<115, 101, 108>>
 Doc(it) == [dets |-> <<[name |-> N_sel, body |-> Body(it)]>>, conds |-> <<N_sel>>]
-Items1 == {Item(F, ch, <<Values[i]>>) : ch \in Chains, i \in 1..Len(Values)}
-          \cup {Item(F, <<N_all, N_expand>>, <<Values[i], Values[8]>>) : i \in 1..Len(Values)}
+Items1 == {Item(F, ch, <<Values[i]>>) : ch \in Chains, i \in 1..10}
+          \cup {Item(F, <<N_all, N_expand>>, <<Values[i], Values[8]>>) : i \in 1..10}
           \cup {Item(F, <<N_contains, N_all, N_expand>>, <<Values[i], Values[10]>>) : i \in {1, 2, 3}}
-          \cup {Item(<<>>, <<N_expand>>, <<Values[i]>>) : i \in 1..Len(Values)}
+          \cup {Item(<<>>, <<N_expand>>, <<Values[i]>>) : i \in 1..10}
           \cup {Item(F, <<N_re, N_expand>>, <<Values[i]>>) : i \in {1, 2, 3, 4, 6, 8, 9}}
           \* a regular expression that a further modifier extends AFTER the placeholders were inserted (and before)
           \cup {Item(F, ch, <<Values[i]>>) : i \in {1, 2, 3, 4, 6}, ch \in {<<N_re, N_expand, N_startswith>>, <<N_re, N_expand, N_endswith>>,
                                                                          <<N_re, N_expand, N_contains>>, <<N_re, N_startswith, N_expand>>}}
           \* regular expressions WITH flags, the flag modifier before or after the expansion
           \cup {Item(F, ch, <<Values[i]>>) : i \in {1, 2, 4}, ch \in {<<N_re, N_i, N_expand>>, <<N_re, N_expand, N_i>>, <<N_re, N_m, N_s, N_expand>>}}
+          \cup {Item(F, <<N_re, N_expand>>, <<Values[i]>>) : i \in {11, 12}}
           \cup {Item(F, <<N_expand>>, <<Values[1], Values[10]>>)}
 Cases == {[doc |-> Doc(it), pipe |-> p, vars |-> t, sw |-> s] : it \in Items1, p \in Pipelines, t \in Tables, s \in BOOLEAN}
 ASSUME LET A == SetToSeq(Cases)
